@@ -74,8 +74,10 @@ const BASE_POS: &[[&str; 6]] = &[
 const CHARS: &[char] = &[
     'a', 'b', 'z', '0', '7', 'あ', 'い', 'ア', 'ー', '東', '京', '漢', 'é', 'ｱ', '𠮷', '😀', '\u{10FFFF}', '\u{FFFF}', '\u{E000}',
     '\u{D7FF}', ',', '/', '"', ' ', '\u{3000}', '*', '\\', 'u', '{', '}', 'U', '\u{7f}', '\u{80}', '\u{7ff}', '\u{800}', '\n',
+    // characters a CSV reader can be configured to treat specially (comment, other delimiters/quotes): they are plain text here
+    '#', ';', '\t', '\'',
 ];
-const PLAIN: &[char] = &['a', 'b', 'あ', 'い', 'ア', '東', '京', 'é', '𠮷', '0'];
+const PLAIN: &[char] = &['a', 'b', 'あ', 'い', 'ア', '東', '京', 'é', '𠮷', '0', '#'];
 
 fn units(s: &str) -> usize {
     s.encode_utf16().count()
